@@ -137,6 +137,8 @@ def step_rule(ctx, rep, fn, direction, keylen, method_of=None):
     body = se.body
     if method_of is not None:
         return _step_rule_method(ctx, rep, fn, direction, keylen, se, method_of)
+    if not util.for_loops(ctx, se) and not cfg.back_edges(body) and _step_rule_fold(ctx, rep, fn, direction, keylen, se):
+        return
     tr = _traversal(ctx, se)
     if isinstance(tr, tuple):
         rep.violation("traversal", fn, "loop" if "found" in tr[1] else "in-order-whole-slice", tr[1], body.loc())
@@ -230,6 +232,70 @@ def step_rule(ctx, rep, fn, direction, keylen, method_of=None):
     idom = cfg.dominators(body)
     be = [e for e in cfg.back_edges(body) if e[1] == head or cfg.dominates(idom, head, e[0])]
     rep.check(bool(be) and all(cfg.dominates(idom, wb, t) for t, h in be), "step", fn, "unconditional", "the step is executed for every byte", "the byte/state update is conditional inside the loop", body.loc(wb))
+
+
+def _step_rule_fold(ctx, rep, fn, direction, keylen, se):
+    """`*previous_value = data.iter_mut().fold(*previous_value, |prev, byte| { step; new prev })`:
+    slice::IterMut::fold calls the closure once per element, in order, threading the accumulator;
+    the per-byte step is the closure body (key and index reached through its captures).  Returns
+    False when the function is not of this form (nothing is reported then)."""
+    body = se.body
+    folds = [i for i in se.term_info.values() if i.get("k") == "call" and (i["name"].endswith("as std::iter::Iterator>::fold") or i["name"] == "std::iter::Iterator::fold")]
+    others = [i for i in se.term_info.values() if i.get("k") == "call" and i not in folds and i["name"] != "core::slice::<impl [T]>::iter_mut"]
+    if len(folds) != 1 or others or "slice::IterMut" not in folds[0]["name"]:
+        return False
+    f = folds[0]
+    it = strip(f["args"][0])
+    over_data = util.is_call(it, "core::slice::<impl [T]>::iter_mut") and se.call_old.get((it[3][:2], 0)) == ("deref", ("param", 1))
+    cl = f["locargs"][2] if len(f.get("locargs", ())) > 2 else ("?",)
+    if not over_data or not (cl[0] == "agg" and cl[1] == "closure"):
+        return False
+    caps = cl[4]
+    # captures: the key parameter (by shared reference) and the index parameter (by unique reference)
+    def cap_of(n):
+        ks = [k for k, c in enumerate(caps) if c[0] == "ref" and c[1] == ("local", n)]
+        return ks[0] if len(ks) == 1 else None
+    ck, ci_ = cap_of(2), cap_of(3)
+    if ck is None or ci_ is None or len(caps) != 2 or caps[ci_][2] is not True:
+        return False
+    cse = ctx.flat.run(cl[2])
+    if cse is None or cfg.back_edges(cse.body) or len(cse.final_states) != 1:
+        return False
+    fin = next(iter(cse.final_states.values()))
+    env_root = ("deref", ("param", 1))
+    key_t = ("deref", ("deref", ("field", env_root, ck)))
+    idx_loc = ("deref", ("deref", ("field", env_root, ci_)))
+    rep.ok("traversal", fn, "in-order-whole-slice", "data.iter_mut().fold(..): the closure runs once per element of the whole slice, in order", body.loc(f["site"][1]))
+    kty = body.local_ty(2).peel_refs()
+    klen = kty.len if kty.k == "array" else None
+    rep.check(klen == keylen, "step", fn, "key-length", "key is [u8; %s]" % klen, "key array has length %s, expected %d" % (klen, keylen), body.loc())
+    env = {strip(idx_loc): "idx", ("param", 2): "prev", strip(("deref", ("param", 3))): "in", strip(key_t): "key"}
+    out_t = fin.get(("deref", ("param", 3)))
+    idx_t = fin.get(idx_loc)
+    if out_t is None or idx_t is None:
+        rep.violation("step", fn, "shape", "the fold closure does not store the byte and advance the index", body.loc())
+        return True
+    out = arith.norm(out_t, env)
+    nidx = arith.norm(idx_t, env)
+    nprev = arith.norm(cse.ret, env)
+    kb = ("idx", S("key"), S("idx"))
+    if direction == "enc":
+        want_out = wadd(xor(S("in"), kb), S("prev"))
+        want_prev = want_out
+    else:
+        want_out = xor(("wsub", S("in"), S("prev")), kb)
+        want_prev = S("in")
+    want_idx = ("rem", ("add", S("idx"), I(1)), I(keylen))
+    rep.check(out == want_out, "step", fn, "output-byte", "out = %s" % arith.show(out), "output byte is %s, expected %s" % (arith.show(out), arith.show(want_out)), cse.body.loc())
+    rep.check(nidx == want_idx, "step", fn, "index-update", "idx' = %s" % arith.show(nidx), "index update is %s, expected %s" % (arith.show(nidx), arith.show(want_idx)), cse.body.loc())
+    rep.check(nprev == want_prev, "step", fn, "previous-update", "prev' = %s (the accumulator handed to the next element)" % arith.show(nprev), "previous-value update is %s, expected %s" % (arith.show(nprev), arith.show(want_prev)), cse.body.loc())
+    # nothing else is written through the closure; outside it only `*previous_value = fold(..)`
+    extra = [k for k in fin if k[0] == "deref" and k not in (("deref", ("param", 3)), idx_loc)]
+    eff = se.param_effects()
+    ok_state = not extra and strip(f["args"][1]) in (("deref", ("param", 4)), ("param", 4)) and f["args"][1] != ("param", 4) and eff.get(4) is not None and strip(eff.get(4)) == strip(f["term"]) and set(eff) <= {1, 3, 4}
+    rep.check(ok_state, "state-discipline", fn, "only-the-step-writes", "index written by the per-byte step only; previous value = the accumulator started from *previous_value and stored back once", "index / previous value are also written outside the per-byte step: %s" % {k: show(v, maxdepth=2) for k, v in eff.items()}, body.loc())
+    rep.ok("step", fn, "unconditional", "the closure body is straight-line: the step is executed for every byte", cse.body.loc())
+    return True
 
 
 def _step_rule_keystream(ctx, rep, fn, direction, keylen, se, tr, prev):
